@@ -93,13 +93,20 @@ class Argv:
         tag_source = rng.choice(["config", "cli"])
         commit_msg = gen_message(rng, msg_source, self.real, allow_newline=not (ini and msg_source == "config"))
         tag_msg = gen_message(rng, tag_source, self.real, allow_newline=not (ini and tag_source == "config")) if rng.random() < 0.8 else ""
+        # neither the config nor the command line says anything: the documented defaults apply
+        if rng.random() < 0.15:
+            msg_source, commit_msg = "default", "bump version to {new_version}"
+        if rng.random() < 0.15:
+            tag_source, tag_msg = "default", "{new_version}"
         names = ["a.txt"]
         if not ini:
             pool = list(ODD_NAMES)
             names += rng.sample(pool, rng.randint(0, 3))
         return {"syntax": syntax, "msg_source": msg_source, "tag_source": tag_source, "commit_msg": commit_msg,
                 "tag_msg": tag_msg, "names": names, "pers": "git" if (self.real or rng.random() < 0.6) else "hg",
-                "push": rng.random() < 0.5, "ops": [{"op": "update"}]}
+                "push": rng.random() < 0.5, "ops": [{"op": "update"}],
+                # a migrated project that kept its old table: lower-priority tables are ignored as a whole
+                "decoy_table": (not ini) and rng.random() < 0.3}
 
     def shrink(self, case):
         """Fewer odd names, plainer messages."""
@@ -119,13 +126,17 @@ class Argv:
         argv = ["update", "--patch", "--no-fetch"]
         if case["msg_source"] == "config":
             cfg["commit_message"] = commit_msg
-        else:
+        elif case["msg_source"] == "cli":
             argv += ["--commit-message", commit_msg]
         if case["tag_source"] == "config":
             cfg["tag_message"] = tag_msg
-        else:
+        elif case["tag_source"] == "cli":
             argv += ["--tag-message", tag_msg]
         lines, _i, _p, _s = configsyn.render_config(cfg, case["syntax"], {"quote": '"', "toml_literal": False})
+        if case.get("decoy_table") and case["syntax"].endswith(".toml"):
+            lines += ["", "[pycalver]", 'current_version = "v0.0.1"', 'version_pattern = "vMAJOR.MINOR.PATCH[-TAG]"',
+                      'commit_message = "decoy commit {new_version}"', 'tag_message = "decoy tag {new_version}"', "",
+                      "[pycalver.file_patterns]", '"decoy.txt" = ["{version}"]', ""]
         files = {case["syntax"]: ("\n".join(lines) + "\n").encode("utf-8")}
         for n in names:
             files[n] = ("text\nver %s\n" % OLD_V).encode("utf-8")
@@ -154,7 +165,8 @@ class Argv:
         exp_commit = expected_message(case["commit_msg"], case["msg_source"])
         exp_tag = expected_message(case["tag_msg"], case["tag_source"]) if case["tag_msg"] else ""
         ctrl_names = ["a.txt"] + ["plain%d.txt" % i for i in range(len(case["names"]) - 1)]
-        ctrl, _r, _d = self.run_once(case, "M0", "T0" if case["tag_msg"] else "", ctrl_names, ctx)
+        ctrl, _r, _d = self.run_once(case, "M0" if case["msg_source"] != "default" else case["commit_msg"],
+                                     ("T0" if case["tag_msg"] else "") if case["tag_source"] != "default" else case["tag_msg"], ctrl_names, ctx)
         res, repo, d = self.run_once(case, case["commit_msg"], case["tag_msg"], case["names"], ctx)
         ctx.event([e["argv"][:2] + ["..."] for e in res.events if e["kind"] == "vcs" and e["role"] in fakevcs.MUTATING],
                   res.exit_code, ctrl.exit_code)
@@ -217,6 +229,15 @@ class Argv:
                 want = [exp_commit if x == "M0" else x for x in want]
             elif role == "tag":
                 want = [exp_tag if x == "T0" else x for x in want]
+            if role in ("commit", "tag") and case["pers"] == "git":
+                # independent of the control run: the message is the reference's substitution of the effective template
+                got_m, want_m = ea["info"].get("message"), (exp_commit if role == "commit" else (exp_tag or None))
+                if got_m != want_m:
+                    ctx.violation("C12", "commit_message_altered" if role == "commit" else "tag_argv_altered",
+                                  dict(facts, role=role, effective=True),
+                                  "%s message %r, the effective template (%s) gives %r; %s" % (
+                                      role, got_m, case["msg_source"] if role == "commit" else case["tag_source"], want_m, detail))
+                    continue
             if ea["argv"] != want:
                 kind = {"commit": "commit_message_altered", "tag": "tag_argv_altered"}.get(role, "argv_structure_changed")
                 ctx.violation("C12", kind, dict(facts, role=role), "%s argv %r, expected %r; %s" % (role, ea["argv"], want, detail))
